@@ -414,7 +414,8 @@
 		and	ebx, FLAGS_CPUID7_EBX_AVX512_G1
 		cmp	ebx, FLAGS_CPUID7_EBX_AVX512_G1
 		lea	mbin_rbx, [%6 WRT_OPT] ; AVX512/06 opt
-		cmove	mbin_rsi, mbin_rbx
+		jne	_%1_init_done	; no AVX512 G2 version without AVX512 G1
+		mov	mbin_rsi, mbin_rbx
 
 		and	ecx, FLAGS_CPUID7_ECX_AVX512_G2
 		cmp	ecx, FLAGS_CPUID7_ECX_AVX512_G2
@@ -490,7 +491,8 @@
 		and	ebx, FLAGS_CPUID7_EBX_AVX512_G1
 		cmp	ebx, FLAGS_CPUID7_EBX_AVX512_G1
 		lea	mbin_rbx, [%6 WRT_OPT] ; AVX512/06 opt
-		cmove	mbin_rsi, mbin_rbx
+		jne	_%1_check_avx2_g2	; no AVX512 G2 version without AVX512 G1
+		mov	mbin_rsi, mbin_rbx
 
 		and	ecx, FLAGS_CPUID7_ECX_AVX512_G2
 		cmp	ecx, FLAGS_CPUID7_ECX_AVX512_G2
